@@ -771,3 +771,26 @@ func lemmaFrameAboveCapRoundTrips() bool { return specF7RoundTrips() }
 //@ ensures [again]  zzCalls("atomic.Store:shutdown") == 0 ==> zzCalls("hsms.(*supervisor).requestClose") == 0 && zzCalls("hsms.(*supervisor).stop") == 0
 //@ cover [closes]  zzCalls("atomic.Store:shutdown") == 1
 //@ cover [second]  zzCalls("atomic.Store:shutdown") == 0 && result != ErrNotOpen
+
+// ---- C09 / C20: the per-generation drainer of fire-and-forget sends ----
+
+// zzChanInv_sendRequest: what travels on an epoch's send queue is a request carrying a real message. Proved at the
+// only send site (SendAsync), assumed at the receive in drainSendCh.
+func zzChanInv_sendRequest(r *sendRequest) bool { return r != nil && r.msg != nil && specRealMsg(r.msg) }
+
+//@ func (*connection).callAsyncSendErrorHandler
+//@ operation
+
+//@ func (*ConnectionMetrics).incAsyncSendErr
+//@ operation
+
+//@ func (*connection).drainSendCh
+//@ nosafety nil-deref nil-iface
+//@ noframe
+//@ modifies nothing
+//@ requires c != nil && e != nil && ctx != nil
+//@ waits [gen] ctx
+//@ loop 1 preserves [pinned] zzCalls("hsms.(*connection).writeFrame") == 1 && zzArg[*epoch]("hsms.(*connection).writeFrame", 1) == e &&
+//@                           zzCalls("hsms.(*ConnectionMetrics).incAsyncSendErr") <= 1 &&
+//@                           (zzCalls("hsms.(*ConnectionMetrics).incAsyncSendErr") == 1) == (zzRet[error]("hsms.(*connection).writeFrame") != nil)
+//@ loop 1 exits [discard]    zzCalls("hsms.(*connection).writeFrame") == 0 && zzCalls("chan.recv") >= 1
